@@ -204,7 +204,7 @@ def run(tier: str, replay: str | None = None):
         for i, c in enumerate(json.loads(CORPUS.read_text())["programs"]):
             programs[f"corpus{i}"] = c["source"]
             feats[f"corpus{i}"] = ["corpus:" + c["name"]]
-        n_gen = 26 if tier == "quick" else 300
+        n_gen = 26 if tier == "quick" else 180
         for i in range(n_gen):
             src, fs = gen_c10.gen_program(rng)
             programs[f"gen{i}"] = src
